@@ -107,6 +107,39 @@ def check(chk, repo, tier):
     memo_keys(chk, repo, "C03")
     n = law_payload_opaque(chk, lp, fr, "C03.lexer-payload-opaque", LF)
     law_total(chk, lp, "C03.lexer-total", LF)
+    from ..lexlaws import law_stateless  # noqa: PLC0415
+    law_stateless(chk, lp, "C03.lexer-stateless", LF)
+    # token kinds are distinct values (equal enum values alias each other:
+    # CODEPAGE_NUMBER = "number" would *be* NUMBER)
+    lmod = repo.mod("lexer")
+    tt = lmod.cls("TokenType")
+    vals = {}
+    for st in tt.body:
+        if isinstance(st, ast.Assign) and isinstance(st.targets[0], ast.Name) \
+                and isinstance(st.value, ast.Constant):
+            vals.setdefault(st.value.value, []).append(st.targets[0].id)
+    dup = {v: ns for v, ns in vals.items() if len(ns) > 1}
+    chk.ob("C03.token-kinds-distinct", "lexer.TokenType", not dup,
+           f"token kinds share a value and are therefore the same enum "
+           f"member: {dup}; every test for one of them also accepts the "
+           "other", LF, tt.lineno, sample={"kinds": len(vals)})
+    # no state carried from one call to the next through a default argument
+    for modname in ("lexer", "parse", "transpile"):
+        m_ = repo.mod(modname)
+        for fn_ in ast.walk(m_.tree):
+            if not isinstance(fn_, ast.FunctionDef):
+                continue
+            for d_ in list(fn_.args.defaults) + [
+                    x for x in fn_.args.kw_defaults if x is not None]:
+                mutable = isinstance(d_, (ast.List, ast.Dict, ast.Set)) or (
+                    isinstance(d_, ast.Call) and (dotted(d_.func) or "") in (
+                        "list", "dict", "set", "collections.deque", "deque",
+                        "io.StringIO", "bytearray", "collections.defaultdict"))
+                chk.ob("C03.no-mutable-default", f"{modname}.{fn_.name}",
+                       not mutable,
+                       f"`{ast.unparse(d_)}` is created once and shared by "
+                       f"all calls of {fn_.name}: what one program leaves in "
+                       "it shows up in the next", m_.rel, fn_.lineno)
     chk.unit("lexer probes (payload law)", n)
     chk.unit("lexer character classes", "".join(
         c if c.isprintable() else "?" for c in lp.reps))
